@@ -204,7 +204,11 @@ StepMutate1(s, a, ev, r) ==
   ELSE IF ev.wrote["c"] # <<>> \/ ev.wrote["s"] # <<>> THEN Bad("wrote-during-mutate", s, a)
   ELSE IF ~StateOK(r.s, ev.st) THEN Bad("counters", s, a)
   ELSE Out("", r.s, a, {"Mutate"}, FALSE)
-StepMutate(s, a, ev) == StepMutate1(s, a, ev, DoMutate(s, ev.x, ev.i))
+\* Deleting the last byte of a record while keeping its header ("trunc_keep") deletes a byte of the STREAM:
+\* if the byte that follows in the stream equals the deleted one, the record itself is bit-for-bit intact
+\* and it is the next record (whose first header byte is what was really lost) that is damaged.
+MutatedIndex(ev) == IF ev.kind = "trunc_keep" /\ ev.old = ev.nxt THEN ev.i + 1 ELSE ev.i
+StepMutate(s, a, ev) == StepMutate1(s, a, ev, DoMutate(s, ev.x, MutatedIndex(ev)))
 
 Pre(ks, n) == SubSeq(ks, 1, Min(Min(n, Len(ks)), 32))
 StepKeystream1(s, a, ev, x, r, tok, me) ==
